@@ -258,7 +258,9 @@ Join == /\ Plain(q) /\ q.from.k \in {"tab", "sub", "join"} /\ steps < MaxSteps
                          \cup { Bin("=", QRef(R, j), QRef(L, i)) : i \in LQ, j \in RQ }
                   common == CommonNames(L, R)
                   \* USING / NATURAL need each shared name to be unique on both sides
-                  usable == \A c \in Range(common) : Cardinality({ i \in 1..Len(L) : L[i].n = c }) = 1
+                  \* ... and to have the same type on both sides (a text = int USING is a type error in PostgreSQL)
+                  SameTy(c) == \A i \in 1..Len(L) : \A j \in 1..Len(R) : (L[i].n = c /\ R[j].n = c) => L[i].ty = R[j].ty
+                  usable == \A c \in Range(common) : Cardinality({ i \in 1..Len(L) : L[i].n = c }) = 1 /\ SameTy(c)
                   AliasFree == al \notin AliasesF(q.from)
               IN /\ AliasFree
                  /\ \E kind \in Pick(JoinKinds) :
